@@ -121,6 +121,62 @@ let handle0 fields impl : string option * string list =
       (if iacc = 1 && outcome <> "no-permit" && imid <> "-" && int_of_string_opt imid <> Some (limit - 1)
        then [Printf.sprintf "inbound-accept-without-slot accepted but %s of %d slots still obtainable during the transfer" imid limit] else []) in
     (Some m, mons)
+  | ["permops"; _dir; limit; ops] ->
+    let limit = int_of_string limit in
+    let opl = String.split_on_char ',' ops in
+    let pops = List.map (fun o -> if o = "g" then PopGet else PopRelease (Obj.magic (Util.nat_of_int (int_of_string (String.sub o 1 (String.length o - 1)))))) opl in
+    let m = match pops_run (n_ limit) pops (n_ 0, []) with
+      | Ok l -> "ok s=" ^ String.concat "," (List.map2 (fun o (ok, c) ->
+          Printf.sprintf "%s:%d" (if o = "g" then (if ok then "1" else "0") else "-") (limit - int_n c)) opl l)
+      | _ -> "panic" in
+    (* specification on the implementation's own observations: a handle counts as in use from a successful Get until the
+       FIRST Release through it; after every step in use <= limit and obtainable = limit - in use *)
+    let mons =
+      if not (starts impl "ok") then (if starts impl "panic" then ["permit-double-release " ^ impl] else [])
+      else begin
+        let steps = String.split_on_char ',' (field impl "s") in
+        let handles = ref [] (* (index, live) newest first *) and nh = ref 0 and inuse = ref 0 and out = ref [] in
+        List.iteri (fun k o ->
+            let st = (try List.nth steps k with _ -> "?:0") in
+            let got, free = (match String.split_on_char ':' st with [g; f] -> (g, (try int_of_string f with _ -> -1)) | _ -> ("?", -1)) in
+            if o = "g" then begin
+              if got = "1" then begin
+                if !inuse >= limit then out := Printf.sprintf "permits-in-use-exceeds-limit step %d: a permit was handed out with %d of %d already in use" k !inuse limit :: !out;
+                handles := (!nh, true) :: !handles; incr inuse
+              end else handles := (!nh, false) :: !handles;
+              incr nh
+            end else begin
+              let i = int_of_string (String.sub o 1 (String.length o - 1)) in
+              (match List.assoc_opt i !handles with
+               | Some true -> handles := (i, false) :: List.remove_assoc i !handles; decr inuse
+               | _ -> ())
+            end;
+            if free > limit - !inuse then out := Printf.sprintf "permits-available-exceeds-limit step %d (%s): %d obtainable with %d of %d in use" k o free !inuse limit :: !out
+            else if free >= 0 && free < limit - !inuse then out := Printf.sprintf "permit-leak-ops step %d (%s): %d obtainable with %d of %d in use" k o free !inuse limit :: !out) opl;
+        List.rev !out
+      end in
+    (Some m, mons)
+  | ["laterelease"; limit; _ver] ->
+    let limit = int_of_string limit in
+    (* the same call sequence on the model: limit-1 held, Get A, Release A (fast), Get B, Release A again (deferred), Get C *)
+    let pre = List.init (limit - 1) (fun _ -> PopGet) in
+    let ia = limit - 1 in
+    let m = match pops_run (n_ limit) (pre @ [PopGet; PopRelease (Obj.magic (Util.nat_of_int ia)); PopGet; PopRelease (Obj.magic (Util.nat_of_int ia)); PopGet]) (n_ 0, []) with
+      | Ok l ->
+        let arr = Array.of_list l in
+        let k = limit - 1 in
+        let (oka, _) = arr.(k) and (okb, _) = arr.(k + 2) and (_, cdur) = arr.(k + 3) and (okc, _) = arr.(k + 4) in
+        Printf.sprintf "ok a=%d b=%d during=%d c=%d after=1" (if oka then 1 else 0) (if okb then 1 else 0) (limit - int_n cdur) (if okc then 1 else 0)
+      | _ -> "panic" in
+    let ib = ifield impl "b" and idur = ifield impl "during" and ic = ifield impl "c" and iafter = ifield impl "after" in
+    let mons =
+      if not (starts impl "ok") then []
+      else
+        (if ib = 1 && idur > 0 then [Printf.sprintf "permits-available-exceeds-limit %d slot(s) obtainable while transfer B holds the last one (A's late Release freed it)" idur] else []) @
+        (if ib = 1 && ic = 1 then ["permits-in-use-exceeds-limit a third OFFER was accepted while B is in progress and the limit is reached"] else []) @
+        (if iafter > 1 then [Printf.sprintf "permit-double-release inbound: %d obtainable at the end, expected 1" iafter] else []) @
+        (if iafter < 1 then [Printf.sprintf "inbound-permit-leak-laterelease %d obtainable at the end, expected 1" iafter] else []) in
+    (Some m, mons)
   | ["ostall"; limit; held0; _ver] ->
     let limit = int_of_string limit and held0 = int_of_string held0 in
     let m = match ostall_scenario false (n_ limit) (n_ held0) with
